@@ -109,7 +109,7 @@ def check(prog, rep, tier):
     # table: nothing escapes
     seen = {}
     for (ev, state), rows in sorted(tab.rows.items()):
-        if ev in ('MSTART', 'MSTOP') or ev.startswith('T_') or ev in (
+        if ev in ('MSTART', 'MSTART_HOLD', 'MSTOP') or ev.startswith('T_') or ev in (
                 'OPEN_OK', 'HDR_ERR', 'OPEN_ERR', 'NOTIF', 'NOTIF_VER', 'KEEPALIVE', 'UPDATE'):
             continue
         for r in rows:
